@@ -118,6 +118,14 @@ def fit_case(case):
     for j, name in enumerate(fitted):
         cols[name] = _values(name, n, case['perm'][j], case.get('dup') if name == 'T' else None)
     wint = np.array(case['weights'], dtype=float)
+    priors = {}
+    if case.get('zeromap'):
+        # the planet radius is sampled in log space and the sample of greatest weight sits at exactly one Jupiter
+        # radius: its coordinate in the sampled space is exactly 0.0
+        priors = {'planet_radius': 'loguniform'}
+        th = [0.015, -0.02, 0.03, -0.035, 0.04][:n]
+        th[int(np.argmax(wint))] = 0.0
+        cols['planet_radius'] = th
     # ---- real objects ---------------------------------------------------------------------------
     nb = len(dr.LAYOUTS[OBS_LAYOUT]['wl'])
     spectrum = [0.010885 + 1.3e-5 * ((i * 7) % 5 - 2) for i in range(nb)]
@@ -127,7 +135,7 @@ def fit_case(case):
     opt = dr.make_optimizer(sampler, obs, p.model, path,
                             multimodal=(sampler_letter != 'mn-single'),
                             cluster=(sampler_letter != 'pc-nocluster'))
-    pbn = dr.configure(opt, p.model, fitted, {})
+    pbn = dr.configure(opt, p.model, fitted, priors)
     # derived selection (direct tuple edit: Optimizer.disable_derived is C07's subject)
     want_derived = DERIVED[case['derived']]
     for owner in (p.model,):
@@ -297,11 +305,13 @@ def _quantiles(r, e, x, w, tag, name, rtol=1e-9):
 
 
 # ----------------------------------------------------------------------------------------------
-def _case(sampler, n, d, weights, perm=None, derived='mu', split=None, wscale='norm', dup=None):
+def _case(sampler, n, d, weights, perm=None, derived='mu', split=None, wscale='norm', dup=None, zeromap=False):
     c = {'sampler': sampler, 'n': n, 'd': d, 'weights': list(weights),
          'perm': list(perm) if perm is not None else [0] * d, 'derived': derived}
     if dup is not None:
         c['dup'] = list(dup)
+    if zeromap:
+        c['zeromap'] = True
     if wscale != 'norm':
         c['wscale'] = wscale
     if sampler in ('mn-multi2', 'pc-cluster2'):
@@ -365,6 +375,10 @@ def explore(ctx):
                 for perm in ([[4, 2, 5]] if quick else [[0, 0, 0], [4, 2, 5]]):
                     add(_case(sl, 3, 3, w, perm=perm, derived=dv, split=2))
                 add(_case(sl, 3, 2, w, perm=[3, 1], derived=dv, split=1))
+    # a most probable sample with a coordinate of exactly zero in the sampled space
+    for sl in SAMPLER_LETTERS:
+        for w in ([(1, 2, 3), (3, 1, 2), (2, 3, 1), (1, 1, 1)] if quick else weight_vectors(3)):
+            add(_case(sl, 3, 3, w, perm=[0, 2, 4], split=2, zeromap=True))
     # repeated trace values: every way two or three of the samples share one temperature exactly, every weight vector
     dups3 = [[0, 0, 1], [0, 1, 0], [0, 1, 1], [1, 0, 0], [2, 2, 0], [0, 0, 0]]
     dups4 = [[0, 0, 1, 2], [0, 1, 1, 2], [0, 1, 2, 2], [0, 0, 1, 1], [1, 0, 1, 0], [0, 2, 2, 2], [3, 0, 0, 3]]
